@@ -16,6 +16,8 @@ FLAVOURS = {
     # the suite's own configuration
     "chk-O2": {"cxx": "g++", "flags": ["-O2", "-DTETL_ENABLE_CONTRACT_CHECKS=1"]},
     "chk-asan": {"cxx": "g++", "flags": SAN + ["-DTETL_ENABLE_CONTRACT_CHECKS=1"], "run_scale": 0.35},
+    # only the SAFE level defined (it must imply the plain level): cheap non-sanitizer build for the quick tier
+    "safe-O2": {"cxx": "g++", "flags": ["-O2", "-DTETL_ENABLE_CONTRACT_CHECKS_SAFE=1"], "run_scale": 0.25},
     "safe-asan": {"cxx": "g++", "flags": SAN + ["-DTETL_ENABLE_CONTRACT_CHECKS_SAFE=1"], "run_scale": 0.35},
     # the shipped default: no contract macros
     "off-asan": {"cxx": "g++", "flags": SAN, "run_scale": 0.35},
@@ -138,7 +140,7 @@ PROPS = {
                 "argument-visible violations, with the object unmodified; every valid step must not enter the handler; "
                 "non-trivial and distinct as for C01",
         "assumptions": COMMON_ASSUME,
-        "quick": {"flavours": ["chk-O2", "chk-asan"], "runs": 600000, "max_seconds": 40},
+        "quick": {"flavours": ["chk-O2", "safe-O2", "chk-asan"], "runs": 600000, "max_seconds": 40},
         "thorough": {"flavours": ["chk-O2", "chk-asan", "safe-asan", "chk-O0"], "runs": 10000000, "max_seconds": 240},
     },
 }
